@@ -295,3 +295,21 @@ CHECKS["C07"] = dict(
                  "a non-timeout net.Error consumed by a handler after being raised through a channel entry point also closes the channel today; the property is silent, both outcomes are accepted from that point on",
                  "a read failure that a handler swallows for ever is outside the statement; the harness closes the channel itself"],
 )
+
+CHECKS["C13"] = dict(
+    test="TestC13", level="exploration",
+    quick=dict(shards=8, checks=4000, timeout=300),
+    thorough=dict(shards=16, checks=250000, timeout=3000, shrinktime="120s"),
+    rule="rapid-generated histories on a real bootstrap with a mock transport factory and a gated executor (real goroutines; a tracker "
+         "counts goroutines running framework code, so 'settled' is a fact, not a timeout): up to 3 listeners started with Async, Sync or "
+         "only Listen, client Connects, inbound connections handed to acceptors, user closes and peer EOFs of activated channels, "
+         "Listener.Close, and exactly one Shutdown at a generated position; every step chooses whether the executor actions it submits "
+         "(accept-loop start, a channel's read loop i.e. its activation) are released at once or held until a later release step; at the "
+         "end everything held is released. Oracle at the settled end state: bootstrap context cancelled; every acceptor ever created is "
+         "closed and no Accept is outstanding; every started accept loop returned exactly once, with ErrServerClosed unless the listener "
+         "was closed explicitly before; every channel's transport closed exactly once, active at most once and before inactive, inactive "
+         "exactly once. Non-trivial = Shutdown ran while an accept-loop start or an accepted-but-not-yet-activated connection was held.",
+    required=["overlap:accept-loop-not-started", "overlap:accepted-not-yet-active", "shutdown:first", "shutdown:middle", "shutdown:last",
+              "listener-closed-before-shutdown", "channels", "late-release", "inbound-handed"],
+    assumptions=["user code closes only channels that were handed out (activated)", "the holder is observed through its effects (every channel closed), not its map"],
+)
